@@ -812,6 +812,18 @@ def center_case(rng, size, dims=3):
     return c, mode
 
 
+INDEX_FORMS = ("int64", "int32", "lists", "uint32", "uint8", "uint64", "int16", "lists", "lists")
+
+
+def index_form(rng, faces, nv):
+    """The face lists in one of the index types a caller's mesh may hold them in (a uint32 index buffer, int lists ...):
+    (label, faces).  Same faces, same solid; only the integer type of the indices differs."""
+    form = INDEX_FORMS[int(rng.integers(len(INDEX_FORMS)))]
+    if form == "lists" or (form == "uint8" and nv > 255):
+        return "lists", [[int(x) for x in f] for f in faces]
+    return form, [np.array([int(x) for x in f], dtype=form) for f in faces]
+
+
 def centre_form(rng, cen, size):
     """The centre of a curved shape as a caller may hand it over: (centre as float array, constructor argument or None
     for "leave it out", label).  Mostly a float array; a list of Python ints when whole numbers are a fair position for a
